@@ -109,6 +109,14 @@ def t_setitem(k):
                     kept_j = ctx.Or(*[ctx.equal(k2, keys[j]) for k2 in data])
                     ctx.check("keeps-most-used", Implies(And(evict, kept, Not(kept_j)), cnts[i] >= cnts[j]))
         ctx.check("callback-only-for-old-keys", And(*[ctx.Or(*[ctx.equal(x, kk) for kk in keys]) for x in log]) if log else True)
+        # use counters (the abstract "how often was this key used"): a store to a held key is one more use, a new key starts
+        # at one use, no other counter moves (without eviction); after an eviction every kept key restarts at one use
+        cnt = d._counter
+        for i in range(k):
+            want = Ite(evict, 1, Ite(keys[i] == key, cnts[i] + 1, cnts[i]))
+            ctx.check("use-counters", Implies(ctx.Or(*[ctx.equal(k2, keys[i]) for k2 in data]),
+                                              ctx.Or(*[And(ctx.equal(k2, keys[i]), ctx.equal(cnt[k2], want)) for k2 in cnt])))
+        ctx.check("use-counter-new-key", Implies(Not(was_in), ctx.Or(*[And(ctx.equal(k2, key), ctx.equal(cnt[k2], 1)) for k2 in cnt])))
         ctx.check("evict-size", Implies(evict, len(data) == mn))
         ctx.check("no-evict-size", Implies(Not(evict), len(data) == k + Ite(was_in, 0, 1)))
         d._delete_cb = None
@@ -127,6 +135,10 @@ def t_getitem(k):
         else:
             ctx.check("value", ctx.Or(*[And(key == keys[i], ctx.equal(r.value, vals[i])) for i in range(k)]))
         ctx.check("invariant", inv(d))
+        for i in range(k):
+            # a successful read is one more use of that key and of no other
+            want = Ite(And(keys[i] == key, not r.raised), cnts[i] + 1, cnts[i])
+            ctx.check("use-counters", ctx.Or(*[And(ctx.equal(k2, keys[i]), ctx.equal(d._counter[k2], want)) for k2 in d._counter]))
         ctx.check("no-callback", len(log) == 0)
         ctx.check("view-unchanged", And(len(d._data) == k, *[ctx.Or(*[And(ctx.equal(k2, keys[i]), ctx.equal(d._data[k2], vals[i]))
                                                                       for k2 in d._data]) for i in range(k)]))
